@@ -263,11 +263,15 @@ def run_property(mod, tier, seed, replay=None):
         print(f"KNOWN-FINDING: property={prop} {mech}: {v.what} ({len(hits)} case(s), e.g. {c.name})")
     if hard:
         shown = 0
+        per_case = {}
         for c, v in hard:
-            path = write_replay(prop, c, v)
+            per_case.setdefault(c.name, (c, []))[1].append(v)
+        for cname, (c, vs) in per_case.items():
+            path = write_replay(prop, c, vs[0], {"all_violations": [asdict(v) for v in vs[:20]]})
             if shown < 5:
                 print(f"VIOLATION property={prop} replay={path}")
-                print(f"  {v.what}")
+                for v in vs[:3]:
+                    print(f"  {v.what}")
                 shown += 1
         print(f"{prop}: {len(hard)} violation(s) in {checked} cases ({wall:.1f}s)")
         return 1
